@@ -6,6 +6,8 @@ open Spine.Json Spine.Generated Spine.Cmd
     rt <function> <shape> build the command for the function and shape from the tokens
                           (empty, data, sel, el, sel2), print what is built, its wire keys, and what is
                           recognised after encode/decode
+    functions / features  the registered functions / the feature type constants of the regenerated table G1
+    failing               the regenerated list of failing tag rows
     reset                 back to the member as written
 -/
 
@@ -89,6 +91,7 @@ partial def loop (h out : IO.FS.Stream) (cfg : Cfg) : IO Unit := do
     | ["cfg", "1"] => (asWritten, "ok")
     | ["rt", f, sh] => (cfg, answerRt cfg f sh)
     | ["functions"] => (cfg, " ".intercalate (functions.map (·.name)))
+    | ["features"] => (cfg, " ".intercalate (featureFunctions.map (·.1) ++ featureTypesUnknown))
     | ["failing"] => (cfg, " ".intercalate (tagFailing.map fun r =>
         s!"{keyToString r.1}/{r.2.1}/{match filterRow? r.2.2 with | some fr => fr.go | none => "?"}"))
     | ["reset"] => (asWritten, "reset")
